@@ -141,6 +141,9 @@ class Engine:
                     statistics.add(it, path_manager)
 
             def simulating_one_path(it):
+                # the variates of this path are drawn in the worker: the pre-drawn ones belong to the parent process and
+                # every task would otherwise start from the same copy of them (paths sharing their Brownian increments)
+                self.process.pre_computation(1, product)
                 return it, simulate_one_path()
 
             with mp.Pool(processes=nb_of_processes, initializer=initializer) as pool:
